@@ -26,6 +26,49 @@ def bounds(tier):
     return {"k": 2 if tier == "quick" else 3, "maxbuf": 1 << (22 if tier == "quick" else 24)}
 
 
+PLATFORM_CHILD = r"""
+import sys, json
+sys.byteorder = %(byteorder)r          # what CPython reports on such a host (the library may consult it; struct and int are unaffected)
+sys.platform = %(platform)r
+sys.path.insert(0, %(root)r)
+from vf import runner
+runner.setup_repo(%(repo)r)
+from vf.props import c01
+from vf import cmdspace as CS
+from vf.spec import cdb as S
+out = []
+n = 0
+for name, c in sorted(S.CLASSES.items()):
+    st, key = next(((st, key) for st, key in c["tables"] if CS.get_opcode(st, key) is not None), (None, None))
+    if st is None:
+        continue
+    for point, r in CS.points(name, 1, 1 << 16):
+        n += 1
+        for k, w in c01.run_case([name, st, key, point]):
+            out.append([k, w, [name, st, key, point]])
+        if len(out) > 20:
+            break
+print(json.dumps({"n": n, "viol": out[:20]}))
+"""
+
+
+def run_platform(byteorder, platform):
+    """the checks of this property in an interpreter that reports another host (sys.byteorder 'big' as on s390x / ppc64, sys.platform
+    of another OS): every class, baseline and every single-argument deviation - the wire format does not depend on the host"""
+    import json
+    import os
+    import subprocess
+    import sys
+    root = os.path.dirname(os.path.dirname(os.path.dirname(os.path.abspath(__file__))))
+    code = PLATFORM_CHILD % {"byteorder": byteorder, "platform": platform, "root": root, "repo": os.environ.get("VF_REPO", "/repo")}
+    p = subprocess.run([sys.executable] + (["-OO"] if sys.flags.optimize else []) + ["-c", code], capture_output=True, timeout=1200,
+                       env=dict(os.environ, PYTHONPATH=root, PYTHONHASHSEED="0"))
+    if p.returncode != 0:
+        return [("platform/child_failed", "interpreter reporting byteorder=%s platform=%s: exit %d: %s" % (byteorder, platform, p.returncode, p.stderr.decode()[-400:]))], 0
+    res = json.loads(p.stdout.decode().strip().splitlines()[-1])
+    return [("platform/%s/%s" % (byteorder, k), "[host reporting sys.byteorder=%r, sys.platform=%r] %s" % (byteorder, platform, w)) for k, w, _ in res["viol"]], res["n"]
+
+
 REENTRANT_CLASSES = ["TestUnitReady", "Read10", "Read12", "Read16", "Inquiry", "ModeSense6", "ExtendedCopy4"]
 
 
@@ -40,6 +83,7 @@ def partitions(tier):
             st, key = c["tables"][0]
             parts.append([name, st, key, "wide"])
     parts += [["reentrant", a, 0] for a in REENTRANT_CLASSES]
+    parts += [["platform", "big", "linux"], ["platform", "big", "aix"], ["platform", "little", "freebsd13"], ["platform", "little", "darwin"]]
     return parts
 
 
@@ -246,6 +290,8 @@ def negative_lba(name, st, key, lba):
 
 
 def replay(case):
+    if case[0] == "platform":
+        return run_platform(case[1], case[2])[0]
     if case[0] == "reentrant":
         from vf.props import c09
         return c09.run_reentrant(case[1], case[2])[0]
@@ -256,6 +302,16 @@ def replay(case):
 
 def run_partition(part, tier, seed):
     acc = Acc(seed)
+    if part[0] == "platform":
+        case = list(part)
+        acc.case(case, nontrivial=True, key=tuple(case))
+        v, n = run_platform(part[1], part[2])
+        acc.evaluations += n
+        acc.add("cases_under_other_reported_host", n)
+        for k, what in v:
+            acc.violation(k, what, case)
+        acc.outcome((tuple(case), n, tuple(k for k, _ in v)))
+        return acc
     if part[0] == "reentrant":
         # the CDB a constructor builds is the same when another command is built in the SAME thread between two library lines of the
         # construction (a signal handler / finalizer issuing a command), at every line in turn (enumeration shared with C09)
